@@ -180,10 +180,10 @@ def display_prims(token_fmt_opaque=True):
     def token_fmt(m, cfg, f, args, t):
         out(cfg.st, ('token', describe(m, cfg.st, args[0])))
         return ok(UNIT)
-    o['std::fmt::Formatter::<\'a>::write_str'] = write_str
-    o['std::fmt::Formatter::<\'a>::write_fmt'] = write_fmt
-    o['std::fmt::Arguments::<\'a>::from_str'] = arguments_from_str
-    o['std::fmt::Arguments::<\'a>::new'] = arguments_new
+    o['std::fmt::Formatter::<\'_>::write_str'] = write_str
+    o['std::fmt::Formatter::<\'_>::write_fmt'] = write_fmt
+    o['std::fmt::Arguments::<\'_>::from_str'] = arguments_from_str
+    o['std::fmt::Arguments::<\'_>::new'] = arguments_new
     for k in ('display', 'lower_exp', 'upper_exp', 'lower_hex', 'upper_hex', 'debug', 'octal', 'binary'):
         o["core::fmt::rt::Argument::<'_>::new_" + k] = arg_new(k)
     if token_fmt_opaque:
@@ -244,7 +244,7 @@ def stream_prims():
     o['std::iter::Peekable::<I>::peek'] = peek
     o['<std::iter::Peekable<I> as std::iter::Iterator>::next'] = nxt
     o['std::iter::Iterator::peekable'] = lambda m, cfg, f, args, t: Atom('iter')
-    o["<minicbor::decode::tokenizer::Tokenizer<'a, 'b> as std::clone::Clone>::clone"] = lambda m, cfg, f, args, t: Atom('tokenizer')
+    o["<minicbor::decode::tokenizer::Tokenizer<'_, '_> as std::clone::Clone>::clone"] = lambda m, cfg, f, args, t: Atom('tokenizer')
     o['std::vec::Vec::<T>::new'] = vec_new
     o['std::vec::Vec::<T, A>::push'] = push
     o['std::vec::Vec::<T, A>::pop'] = pop
@@ -665,7 +665,7 @@ def bytes_iter_prims():
         def more(s_):
             s_.events.append(('BYTE',))
         return Fork([(more, some(Ref(k, ()))), (None, NONE)])
-    return {'<std::slice::Iter<\'a, T> as std::iter::Iterator>::next': nxt}
+    return {'<std::slice::Iter<\'_, T> as std::iter::Iterator>::next': nxt}
 
 
 def concrete_slice_prims():
@@ -742,9 +742,9 @@ def concrete_slice_prims():
     return {'std::iter::Iterator::enumerate': enumerate_,
             '<std::iter::Enumerate<I> as std::iter::Iterator>::next': enum_next,
             '<I as std::iter::IntoIterator>::into_iter': enum_into_iter,
-            "std::slice::iter::<impl std::iter::IntoIterator for &'a [T]>::into_iter": into_iter,
+            "std::slice::iter::<impl std::iter::IntoIterator for &'_ [T]>::into_iter": into_iter,
             'std::slice::<impl [T]>::iter': into_iter,
-            "<std::slice::Iter<'a, T> as std::iter::Iterator>::next": nxt,
+            "<std::slice::Iter<'_, T> as std::iter::Iterator>::next": nxt,
             'std::slice::<impl [T]>::split_last': split_last}
 
 
